@@ -190,6 +190,7 @@ const preludeBase = `(set-option :produce-models true)
 (declare-fun fld_addr (Int Int) Int)
 (declare-fun fld_base (Int) Int)
 (declare-fun fld_id (Int) Int)
+(declare-fun obj_root (Int) Int)
 (declare-fun wraps (Iface Iface) Bool)
 (declare-fun box_Str (Str) Int)
 (declare-fun unbox_Str (Int) Str)
